@@ -28,6 +28,18 @@
     Section 3b covers multi-step use of ONE key-manifest object (GetBPMPubHash on
     a KM that already holds a digest, was parsed from a signed file, was signed
     in between ...): theorems over all prior states and all histories.
+    Section 2b (Model/ManifestOrder.v) goes below [parse]/[ser] for boot policy
+    manifests: a file as a sequence of ELEMENTS, the element loop of fiano's
+    generated reader with its package-level order switch, the order the writer
+    writes in, and the PROCESS the suite runs in -- the two switches as process
+    state carried through any history of calls of the package's entry points
+    (none of which writes them) and through the assignment the tools' main()
+    makes.  Theorems: the verdict on a file does not depend on the history;
+    with the switch on, an accepted file of known elements IS the signed
+    sequence (exchanged / moved / repeated / missing elements are refused, after
+    any history); chunks with an unknown structure ID are invisible (refuted
+    clause, open finding), and the tools' default configuration accepts a
+    permuted CBnT manifest (refuted clause, open finding).
     Which of the glue conditions fail in the real code is recorded by the
     [_refuted] theorems and the KNOWN_FINDINGS entries of C18.
 
@@ -37,7 +49,8 @@
     C18_keymatch_is_binding_bg/_cbnt, C18_keymatch_closed_bg/_cbnt), the panic of
     DecryptPrivKey on short input (4423a4c: C18_decrypt_short_input_is_error,
     C18_decrypt_never_panics). *)
-From CSS Require Import Lib.Base Model.Manifest Proofs.Manifest.
+From CSS Require Import Lib.Base Lib.Cases Model.Manifest Proofs.Manifest Model.ManifestOrder Proofs.ManifestOrder.
+From Coq Require Import Sorting.Permutation.
 From Coq Require Strings.String.
 Import String.StringSyntax.
 
@@ -366,6 +379,128 @@ Theorem C18_unknown_version_accepted :
   forall (E : env) v d (m : M E), gen_of_version v = None -> verify_struct E v d m = Ok tt.
 Proof. exact verify_struct_unknown. Qed.
 Print Assumptions C18_unknown_version_accepted.
+
+(** * 2b. Tampering with whole ELEMENTS, the history of the process, and the
+    configuration the tools run with (Model/ManifestOrder.v)
+
+    A boot policy manifest file is a sequence of elements.  [order_verdict strict
+    sp orig mut] is NewBPM + VerifyBPM on a file made of the elements [mut] that
+    carries key and signature of the manifest [orig], under an ideal signature;
+    [strict] is the package-level order switch of fiano's reader for the file's
+    generation, a piece of PROCESS state ([pconf]); [session_verdict c0 hist g]
+    is the same verdict in a process that started with configuration [c0] and in
+    which the entry points [hist] of pkg/provisioning/bootguard were called
+    before.  Elements are (field index of the structure ID, identity); an index
+    outside the manifest's fields is an unknown structure ID. *)
+
+(** No entry point of the package changes the process configuration, whatever the
+    order and number of calls -- so a verdict never depends on what else the
+    process did before. *)
+Theorem C18_config_untouched_by_any_history :
+  forall (hist : list entry) (c : pconf), run_conf c hist = c.
+Proof. exact run_conf_id. Qed.
+Print Assumptions C18_config_untouched_by_any_history.
+
+Theorem C18_verdict_independent_of_history :
+  forall c0 (h1 h2 : list entry) g orig mut,
+  session_verdict c0 h1 g orig mut = session_verdict c0 h2 g orig mut.
+Proof. exact session_same_verdict. Qed.
+Print Assumptions C18_verdict_independent_of_history.
+
+(** With the order switch ON (what a process starts with), an accepted file
+    consists of the signed elements in the signed order -- plus, possibly, chunks
+    with unknown structure IDs (next theorems).  For a file of known elements:
+    accepted only if it IS the signed sequence (element-level canonicity). *)
+Theorem C18_strict_accepts_only_signed_elements :
+  forall sp orig mut,
+  order_verdict true sp orig mut = Ok tt -> filter (known sp) mut = orig.
+Proof. exact strict_accepts_only_signed. Qed.
+Print Assumptions C18_strict_accepts_only_signed_elements.
+
+Theorem C18_strict_element_canonicity :
+  forall sp orig mut,
+  (forall e, In e mut -> known sp e = true) ->
+  order_verdict true sp orig mut = Ok tt -> mut = orig.
+Proof. exact strict_element_canonicity. Qed.
+Print Assumptions C18_strict_element_canonicity.
+
+(** ... exactly: when the signed manifest itself is one the suite accepts, a file
+    is accepted iff its known elements are the signed sequence. *)
+Theorem C18_strict_accept_iff :
+  forall sp orig mut,
+  order_verdict true sp orig orig = Ok tt ->
+  (forall e, In e orig -> known sp e = true) ->
+  (order_verdict true sp orig mut = Ok tt <-> filter (known sp) mut = orig).
+Proof. exact strict_accept_iff. Qed.
+Print Assumptions C18_strict_accept_iff.
+
+(** With the switch on, known elements that do not follow the documented order
+    (field indices going down, or a field that is not a slice repeated) are refused
+    by the reader. *)
+Theorem C18_out_of_order_refused :
+  forall sp orig mut,
+  in_order sp (-1) (kinds sp mut) = false -> exists c, order_verdict true sp orig mut = Err c.
+Proof. exact out_of_order_refused. Qed.
+Print Assumptions C18_out_of_order_refused.
+
+(** In a process that started with the library's configuration, after ANY history
+    of calls of the package's entry points, a file put together from known
+    elements that is not the signed sequence (elements exchanged, moved, repeated,
+    left out) is not accepted. *)
+Theorem C18_rearranged_refused_after_any_history :
+  forall (hist : list entry) g orig mut,
+  (forall e, In e mut -> known (bpm_spec g) e = true) -> mut <> orig ->
+  session_verdict lib_default_conf hist g orig mut <> Ok tt.
+Proof. exact default_process_refuses_rearranged. Qed.
+Print Assumptions C18_rearranged_refused_after_any_history.
+
+(** Elements with an unknown structure ID leave no trace, whatever the switch: the
+    verdict on a file is the verdict on the file without them. *)
+Theorem C18_unknown_elements_invisible :
+  forall strict sp orig mut,
+  order_verdict strict sp orig mut = order_verdict strict sp orig (filter (known sp) mut).
+Proof. exact unknown_elements_invisible. Qed.
+Print Assumptions C18_unknown_elements_invisible.
+
+(** REFUTED ("accepted only if the signature is valid for the signed portion as
+    stored"), both generations, order switch ON: a chunk of StructInfo size with an
+    unknown structure ID between two elements of the signed portion -- the stored
+    signed portion is not what was signed, the file is accepted.
+    [finding C18-verify-unknown-element-skipped] *)
+Theorem C18_unknown_element_accepted_refuted :
+  (exists orig mut, mut <> orig /\ order_verdict true (bpm_spec V20) orig mut = Ok tt) /\
+  (exists orig mut, mut <> orig /\ order_verdict true (bpm_spec V10) orig mut = Ok tt).
+Proof. exact unknown_element_accepted_ex. Qed.
+Print Assumptions C18_unknown_element_accepted_refuted.
+
+(** The tools' main() assigns only the CBnT switch (from a flag whose default is
+    false); the BG 1.0 switch stays what the process started with. *)
+Theorem C18_tool_conf_switches :
+  forall flag c,
+  strict_of (tool_conf flag c) V10 = strict_of c V10 /\ strict_of (tool_conf flag c) V20 = flag.
+Proof. exact tool_conf_switches. Qed.
+Print Assumptions C18_tool_conf_switches.
+
+(** REFUTED in the configuration the suite's tools run with by default (flag not
+    given): a CBnT manifest of known elements, a permutation of the signed one and
+    different from it, is accepted; the library's default refuses the same file.
+    [finding C18-verify-element-order-unchecked-by-default] *)
+Theorem C18_tool_default_accepts_permutation_refuted :
+  exists orig mut,
+    mut <> orig /\ Permutation mut orig /\
+    (forall e, In e mut -> known (bpm_spec V20) e = true) /\
+    session_verdict (tool_conf false lib_default_conf) [] V20 orig mut = Ok tt /\
+    session_verdict lib_default_conf [] V20 orig mut = Err 1.
+Proof. exact tool_default_accepts_permutation_ex. Qed.
+Print Assumptions C18_tool_default_accepts_permutation_refuted.
+
+(** the hypotheses of C18_strict_accept_iff are satisfiable: a CBnT and a BG 1.0
+    manifest the suite accepts *)
+Example C18_elements_example :
+  order_verdict true (bpm_spec V20) w_orig w_orig = Ok tt /\
+  order_verdict true (bpm_spec V10) w_orig10 w_orig10 = Ok tt /\
+  (forall e, In e w_orig -> known (bpm_spec V20) e = true).
+Proof. exact witness_self. Qed.
 
 (** * 3. The KM binds the BPM key *)
 
